@@ -2,7 +2,7 @@
 //! exact; the canonical form lower-cases exactly the RFC 4034 §6.2 /
 //! RFC 6840 §5.1 names.
 //!
-//! Four exhaustive enumerations (engine: `gramx`):
+//! Five exhaustive enumerations (engine: `gramx`):
 //!
 //! 1. VALUES: for every record type the full product of per-field boundary
 //!    menus (generator: `mc::rgen`), each value carrying an independent
@@ -20,6 +20,17 @@
 //!    name; labels+pointer to a compressed name; pointer chains of 2 and 3);
 //!    the parsed record must compose / canonicalise / measure / flatten /
 //!    compare like the record parsed from the decompressed reference.
+//!
+//! 5. REPRESENTATIONS: every value also through the octets conversions
+//!    (Vec -> Bytes -> Vec, parsed -> flattened) of both enums and of its
+//!    concrete type, the concrete type's own ParseRecordData (right type:
+//!    equal; other type: None, parser untouched), ComposeRecordData and
+//!    `From` impls, `&T`, ProtoRrsig, setters, and the decoders that read
+//!    the value back (RtypeBitmap iter/contains, Txt iter/text, SvcParams
+//!    iter_all/iter_raw through every typed SvcParam parser); the slice /
+//!    Bytes / builder constructors of CharStr, CaaTag, Nsec3Salt, OwnerHash,
+//!    Txt, Null, Opt, SvcParams against `from_octets` and an independent
+//!    validity predicate; 65536 octets into the length-checking parsers.
 //!
 //! Oracle per value v: compose_rdata(v) == reference; rdlen == octets
 //! written; parse(compose(v)) == v (stand-alone parser and through whole
@@ -434,6 +445,9 @@ fn check_value(env: &Env, v: &Value, lc: &mut Local) {
         lc.distinct.push(fnv(&key));
     }
 
+    // 4a. other representations and entry points of the same value
+    check_variants(env, v, &c, &expect_canon, lc);
+
     // 4b. the same value through the ZoneRecordData dispatch
     {
         let z: Result<rgen::ZRd, Rd> = v.data.clone().into();
@@ -628,6 +642,440 @@ fn check_message(env: &Env, v: &Value, msg: &[u8], target: Target, cfg: &str, lc
                 lc.inc(format!("{}:message-roundtrips", v.mnemonic));
             }
         }
+    }
+}
+
+
+//------------ representations and second entry points -----------------------------------
+
+type BRd = AllRecordData<bytes::Bytes, Name<bytes::Bytes>>;
+type BZRd = domain::rdata::ZoneRecordData<bytes::Bytes, Name<bytes::Bytes>>;
+type PN<'a> = ParsedName<&'a [u8]>;
+type VN = Name<Vec<u8>>;
+type BN = Name<bytes::Bytes>;
+
+/// Checks for one concrete record data type `inner` (a clone of the enum's
+/// payload): its own ComposeRecordData impl, `From` into both enums, its own
+/// ParseRecordData impl (right type: equal value; other type: `None` and an
+/// untouched parser), its OctetsFrom impl into `Bytes`, and (name-bearing
+/// types) its FlattenInto impl on the parsed value.
+macro_rules! typed {
+    ($v:ident, $c:ident, $canon:ident, $inner:ident, $parsed:ty, $bytes:ty, $owned:ty, $zone:tt, $flatten:tt, $entry:tt) => {{
+        #[allow(unused_imports)]
+        use domain::base::rdata::ParseRecordData;
+        #[allow(unused_imports)]
+        use octseq::OctetsFrom;
+        let inner = $inner;
+        let mut t = Vec::new();
+        inner.compose_rdata(&mut t).map_err(|_| "append")?;
+        if &t != $c {
+            return Err(format!("own-compose_rdata|differs: {}", first_diff(&t, $c)));
+        }
+        let mut t = Vec::new();
+        inner.compose_canonical_rdata(&mut t).map_err(|_| "append")?;
+        if &t != $canon {
+            return Err(format!("own-compose_canonical_rdata|differs: {}", first_diff(&t, $canon)));
+        }
+        if inner.rdlen(false) != $v.data.rdlen(false) || inner.rdlen(true) != $v.data.rdlen(true) || inner.rtype().to_int() != $v.rtype {
+            return Err("own-rdlen-or-rtype|differs-from-enum".into());
+        }
+        // a reference to the value is record data, too
+        let r = &inner;
+        let mut t = Vec::new();
+        r.compose_canonical_rdata(&mut t).map_err(|_| "append")?;
+        let mut t2 = Vec::new();
+        r.compose_rdata(&mut t2).map_err(|_| "append")?;
+        if &t != $canon || &t2 != $c || r.rdlen(false) != inner.rdlen(false) || r.rtype() != inner.rtype() {
+            return Err("impl-for-reference|differs".into());
+        }
+        if !(Rd::from(inner.clone()) == $v.data) {
+            return Err("From-into-AllRecordData|not-equal".into());
+        }
+        typed!(@zone $zone, inner, $c);
+        typed!(@entry $entry, $v, $c, inner, $parsed, $bytes, $owned, $flatten);
+    }};
+    (@entry true, $v:ident, $c:ident, $inner:ident, $parsed:ty, $bytes:ty, $owned:ty, $flatten:tt) => {
+        let inner = $inner;
+        // the type's own parser
+        let mut p = Parser::from_ref($c.as_slice());
+        let got = <$parsed as ParseRecordData<[u8]>>::parse_rdata(Rtype::from_int($v.rtype), &mut p).map_err(|e| format!("own-parse_rdata|rejected: {e}"))?;
+        let got = got.ok_or("own-parse_rdata|returned-None-for-its-own-type")?;
+        if p.remaining() != 0 {
+            return Err("own-parse_rdata|octets-left-unparsed".into());
+        }
+        if !(got == inner && inner == got) {
+            return Err("own-parse_rdata|not-equal".into());
+        }
+        let mut p2 = Parser::from_ref($c.as_slice());
+        let other = if $v.rtype == 65281 { 65282 } else { 65281 };
+        match <$parsed as ParseRecordData<[u8]>>::parse_rdata(Rtype::from_int(other), &mut p2) {
+            Ok(None) if p2.pos() == 0 => {}
+            Ok(None) => return Err("own-parse_rdata|other-type-parser-advanced".into()),
+            Ok(Some(_)) => return Err("own-parse_rdata|other-type-accepted".into()),
+            Err(e) => return Err(format!("own-parse_rdata|other-type-error: {e}")),
+        }
+        // octets conversion
+        let b = <$bytes>::try_octets_from(inner.clone()).map_err(|_| "own-octets_from|failed")?;
+        let mut t = Vec::new();
+        b.compose_rdata(&mut t).map_err(|_| "append")?;
+        if &t != $c || !(b == inner && inner == b) {
+            return Err("own-octets_from(Bytes)|value-changed".into());
+        }
+        typed!(@flatten $flatten, got, inner, $c, $owned);
+    };
+    (@entry false, $v:ident, $c:ident, $inner:ident, $parsed:ty, $bytes:ty, $owned:ty, $flatten:tt) => {
+        let _ = &$inner;
+    };
+    (@never) => {{    }};
+    (@zone true, $inner:ident, $c:ident) => {
+        let z = rgen::ZRd::from($inner.clone());
+        let mut t = Vec::new();
+        z.compose_rdata(&mut t).map_err(|_| "append")?;
+        if &t != $c {
+            return Err("From-into-ZoneRecordData|compose-differs".into());
+        }
+    };
+    (@zone false, $inner:ident, $c:ident) => {};
+    (@flatten true, $got:ident, $inner:ident, $c:ident, $owned:ty) => {
+        use domain::base::name::FlattenInto;
+        let f: $owned = $got.try_flatten_into().map_err(|_: std::convert::Infallible| String::new())?;
+        let mut t = Vec::new();
+        f.compose_rdata(&mut t).map_err(|_| "append")?;
+        if &t != $c || !(f == $inner) {
+            return Err("own-flatten_into|value-changed".into());
+        }
+    };
+    (@flatten false, $got:ident, $inner:ident, $c:ident, $owned:ty) => {
+        let _ = &$got;
+    };
+}
+
+fn typed_checks(v: &Value, c: &Vec<u8>, canon: &Vec<u8>) -> Result<(), String> {
+    use domain::rdata::*;
+    macro_rules! name1 {
+        ($x:ident, $t:ident) => {{
+            let inner = $x.clone();
+            typed!(v, c, canon, inner, $t<PN>, $t<BN>, $t<VN>, true, true, true)
+        }};
+    }
+    macro_rules! octs1 {
+        ($x:ident, $t:ident, $zone:tt, $entry:tt) => {{
+            let inner = $x.clone();
+            typed!(v, c, canon, inner, $t<&[u8]>, $t<bytes::Bytes>, $t<Vec<u8>>, $zone, false, $entry)
+        }};
+    }
+    macro_rules! both {
+        ($x:ident, $t:ident, $zone:tt, $flatten:tt, $entry:tt) => {{
+            let inner = $x.clone();
+            typed!(v, c, canon, inner, $t<&[u8], PN>, $t<bytes::Bytes, BN>, $t<Vec<u8>, VN>, $zone, $flatten, $entry)
+        }};
+    }
+    match &v.data {
+        Rd::A(x) => {
+            let inner = x.clone();
+            typed!(v, c, canon, inner, A, A, A, true, false, true)
+        }
+        Rd::Aaaa(x) => {
+            let inner = x.clone();
+            typed!(v, c, canon, inner, Aaaa, Aaaa, Aaaa, true, false, true)
+        }
+        Rd::Ns(x) => name1!(x, Ns),
+        Rd::Md(x) => name1!(x, Md),
+        Rd::Mf(x) => name1!(x, Mf),
+        Rd::Cname(x) => name1!(x, Cname),
+        Rd::Mb(x) => name1!(x, Mb),
+        Rd::Mg(x) => name1!(x, Mg),
+        Rd::Mr(x) => name1!(x, Mr),
+        Rd::Ptr(x) => name1!(x, Ptr),
+        Rd::Dname(x) => name1!(x, Dname),
+        Rd::Minfo(x) => name1!(x, Minfo),
+        Rd::Mx(x) => name1!(x, Mx),
+        Rd::Soa(x) => name1!(x, Soa),
+        Rd::Rp(x) => name1!(x, Rp),
+        Rd::Srv(x) => name1!(x, Srv),
+        Rd::Hinfo(x) => octs1!(x, Hinfo, true, true),
+        Rd::Txt(x) => octs1!(x, Txt, true, true),
+        Rd::Null(x) => octs1!(x, Null, false, true),
+        Rd::Caa(x) => {
+            let inner = x.clone();
+            typed!(v, c, canon, inner, Caa<&[u8]>, Caa<bytes::Bytes>, Caa<Vec<u8>>, true, true, true)
+        }
+        Rd::Cds(x) => octs1!(x, Cds, true, true),
+        Rd::Cdnskey(x) => octs1!(x, Cdnskey, true, true),
+        Rd::Dnskey(x) => octs1!(x, Dnskey, true, true),
+        Rd::Ds(x) => octs1!(x, Ds, true, true),
+        Rd::Nsec3(x) => octs1!(x, Nsec3, true, true),
+        Rd::Nsec3param(x) => octs1!(x, Nsec3param, true, true),
+        Rd::Openpgpkey(x) => octs1!(x, Openpgpkey, true, false),
+        Rd::Sshfp(x) => octs1!(x, Sshfp, true, false),
+        Rd::Tlsa(x) => octs1!(x, Tlsa, true, false),
+        Rd::Zonemd(x) => octs1!(x, Zonemd, true, false),
+        Rd::Rrsig(x) => both!(x, Rrsig, true, true, true),
+        Rd::Nsec(x) => both!(x, Nsec, true, true, true),
+        Rd::Naptr(x) => both!(x, Naptr, true, true, true),
+        Rd::Ipseckey(x) => both!(x, Ipseckey, true, false, false),
+        Rd::Svcb(x) => both!(x, Svcb, true, false, true),
+        Rd::Https(x) => both!(x, Https, true, false, true),
+        Rd::Tsig(x) => both!(x, Tsig, false, true, true),
+        _ => {}
+    }
+    Ok(())
+}
+
+/// Independent decoding of an RFC 4034 §4.1.2 bitmap into a sorted type list.
+fn decode_bitmap(mut b: &[u8]) -> Option<Vec<u16>> {
+    let mut out = Vec::new();
+    while !b.is_empty() {
+        let (win, len) = (*b.first()? as u16, *b.get(1)? as usize);
+        let bits = b.get(2..2 + len)?;
+        for (i, oct) in bits.iter().enumerate() {
+            for bit in 0..8 {
+                if oct & (0x80 >> bit) != 0 {
+                    out.push((win << 8) | (i as u16 * 8 + bit));
+                }
+            }
+        }
+        b = &b[2 + len..];
+    }
+    Some(out)
+}
+
+/// Type-specific second entry points, decoders and setters.
+fn typed_extras(v: &Value, c: &Vec<u8>, canon: &Vec<u8>) -> Result<(), String> {
+    use domain::rdata::dnssec::{ProtoRrsig, RtypeBitmap};
+    let check_bitmap = |bm: &RtypeBitmap<Vec<u8>>, wire: &[u8]| -> Result<(), String> {
+        let expect = decode_bitmap(wire).ok_or("reference bitmap undecodable")?;
+        let got: Vec<u16> = bm.iter().take(70_000).map(|t| t.to_int()).collect();
+        if got != expect {
+            return Err(format!("RtypeBitmap.iter|differs-from-independent-decoding: {got:?} vs {expect:?}"));
+        }
+        if bm.is_empty() != expect.is_empty() || bm.as_slice() != wire {
+            return Err("RtypeBitmap.is_empty/as_slice|wrong".into());
+        }
+        for probe in expect.iter().cloned().chain([0u16, 1, 2, 255, 256, 257, 65534, 65535]) {
+            if bm.contains(Rtype::from_int(probe)) != expect.contains(&probe) {
+                return Err(format!("RtypeBitmap.contains|wrong for type {probe}"));
+            }
+        }
+        Ok(())
+    };
+    match &v.data {
+        Rd::Rrsig(x) => {
+            let (off, len) = v.names[0];
+            let proto = ProtoRrsig::new(x.type_covered(), x.algorithm(), x.labels(), x.original_ttl(), x.expiration(), x.inception(), x.key_tag(), x.signer_name().clone());
+            let mut t = Vec::new();
+            proto.compose(&mut t).map_err(|_| "append")?;
+            if t != c[..off + len] {
+                return Err(format!("ProtoRrsig.compose|differs-from-rrsig-prefix: {}", first_diff(&t, &c[..off + len])));
+            }
+            let mut t = Vec::new();
+            proto.compose_canonical(&mut t).map_err(|_| "append")?;
+            if t != canon[..off + len] {
+                return Err(format!("ProtoRrsig.compose_canonical|differs: {}", first_diff(&t, &canon[..off + len])));
+            }
+            let sig = c[off + len..].to_vec();
+            match proto.clone().into_rrsig(sig) {
+                Ok(r) if &r == x => {}
+                Ok(_) => return Err("ProtoRrsig.into_rrsig|not-equal".into()),
+                Err(_) => return Err("ProtoRrsig.into_rrsig|refused".into()),
+            }
+            let mut y = x.clone();
+            y.set_signature(vec![0xAB, 0xCD]);
+            let mut t = Vec::new();
+            y.compose_rdata(&mut t).map_err(|_| "append")?;
+            if t != [&c[..off + len], &[0xAB, 0xCD][..]].concat() {
+                return Err("Rrsig.set_signature|compose-differs".into());
+            }
+        }
+        Rd::Nsec(x) => {
+            let (off, len) = v.names[0];
+            check_bitmap(x.types(), &c[off + len..])?;
+            let mut y = x.clone();
+            y.set_next_name(Name::from_octets(vec![1, b'Z', 0]).unwrap());
+            let mut t = Vec::new();
+            y.compose_rdata(&mut t).map_err(|_| "append")?;
+            if t != [&[1u8, b'Z', 0][..], &c[off + len..]].concat() {
+                return Err("Nsec.set_next_name|compose-differs".into());
+            }
+        }
+        Rd::Nsec3(x) => {
+            let salt_len = c[4] as usize;
+            let hash_len = c[5 + salt_len] as usize;
+            let bm_at = 6 + salt_len + hash_len;
+            check_bitmap(x.types(), &c[bm_at..])?;
+            if x.salt().as_slice() != &c[5..5 + salt_len] || x.next_owner().as_slice() != &c[6 + salt_len..bm_at] {
+                return Err("Nsec3.salt/next_owner|differ-from-reference".into());
+            }
+            let mut y = x.clone();
+            y.set_next_owner(domain::rdata::nsec3::OwnerHash::from_octets(vec![7, 7]).unwrap());
+            y.set_types(RtypeBitmap::from_octets(vec![0, 1, 0x40]).unwrap());
+            let mut t = Vec::new();
+            y.compose_rdata(&mut t).map_err(|_| "append")?;
+            if t != [&c[..5 + salt_len], &[2u8, 7, 7, 0, 1, 0x40][..]].concat() {
+                return Err("Nsec3.set_next_owner/set_types|compose-differs".into());
+            }
+        }
+        Rd::Nsec3param(x) => {
+            let mut y = x.clone();
+            y.set_opt_out_flag();
+            let mut t = Vec::new();
+            y.compose_rdata(&mut t).map_err(|_| "append")?;
+            let mut e = c.clone();
+            e[1] |= 1;
+            if t != e || !y.opt_out_flag() {
+                return Err("Nsec3param.set_opt_out_flag|compose-differs".into());
+            }
+        }
+        Rd::Aaaa(x) => {
+            let mut y = x.clone();
+            y.set_addr(std::net::Ipv6Addr::from([9u8; 16]));
+            let mut t = Vec::new();
+            y.compose_rdata(&mut t).map_err(|_| "append")?;
+            if t != [9u8; 16] {
+                return Err("Aaaa.set_addr|compose-differs".into());
+            }
+        }
+        Rd::Dnskey(x) => {
+            let y: domain::rdata::Dnskey<bytes::Bytes> = x.clone().convert();
+            let mut t = Vec::new();
+            y.compose_rdata(&mut t).map_err(|_| "append")?;
+            if &t != c || !(&y == x) {
+                return Err("Dnskey.convert|value-changed".into());
+            }
+        }
+        Rd::Txt(x) => {
+            // independent split into character strings
+            let mut strings: Vec<&[u8]> = Vec::new();
+            let mut p = 0;
+            while p < c.len() {
+                let l = c[p] as usize;
+                strings.push(&c[p + 1..p + 1 + l]);
+                p += 1 + l;
+            }
+            let got: Vec<Vec<u8>> = x.iter_charstrs().take(70_000).map(|s| s.as_slice().to_vec()).collect();
+            if got.iter().map(|g| g.as_slice()).collect::<Vec<_>>() != strings {
+                return Err("Txt.iter_charstrs|differs-from-independent-split".into());
+            }
+            let got2: Vec<&[u8]> = x.iter().take(70_000).collect();
+            if got2 != strings {
+                return Err("Txt.iter|differs-from-independent-split".into());
+            }
+            let text: Vec<u8> = x.text();
+            if text != strings.concat() || x.len() != c.len() {
+                return Err("Txt.text/len|differs-from-independent-split".into());
+            }
+        }
+        Rd::Svcb(_) | Rd::Https(_) => {
+            // every parameter through its typed parser (AllValues)
+            use domain::rdata::svcb::{ComposeSvcParamValue, SvcParamValue};
+            let (off, len) = v.names[0];
+            let mut reference: Vec<(u16, Vec<u8>)> = Vec::new();
+            let mut p = off + len;
+            while p < c.len() {
+                let key = u16::from_be_bytes([c[p], c[p + 1]]);
+                let l = u16::from_be_bytes([c[p + 2], c[p + 3]]) as usize;
+                reference.push((key, c[p + 4..p + 4 + l].to_vec()));
+                p += 4 + l;
+            }
+            let mut parser = Parser::from_ref(c.as_slice());
+            let parsed = PRd::parse_any_rdata(Rtype::from_int(v.rtype), &mut parser).map_err(|e| e.to_string())?;
+            let params = match &parsed {
+                AllRecordData::Svcb(s) => s.params(),
+                AllRecordData::Https(s) => s.params(),
+                _ => return Err("not SVCB".into()),
+            };
+            let mut got: Vec<(u16, Vec<u8>)> = Vec::new();
+            for item in params.iter_all().take(70_000) {
+                let item = item.map_err(|e| {
+                    let key = reference.get(got.len()).map(|r| r.0).unwrap_or(0);
+                    let vlen = reference.get(got.len()).map(|r| r.1.len()).unwrap_or(0);
+                    format!("SvcParams.iter_all|typed-value-parser-rejects-own-compose|key={key}|{}: {e}", if vlen == 0 { "empty-value" } else { "non-empty-value" })
+                })?;
+                let mut t = Vec::new();
+                item.compose_value(&mut t).map_err(|_| "append")?;
+                if item.compose_len() as usize != t.len() {
+                    return Err(format!("SvcParamValue.compose_len|advertised!=written: key {}", item.key().to_int()));
+                }
+                got.push((item.key().to_int(), t));
+            }
+            if got != reference {
+                return Err(format!("SvcParams.iter_all|differs-from-independent-split: {} vs {} parameters", got.len(), reference.len()));
+            }
+            let raw: Vec<(u16, Vec<u8>)> = params.iter_raw().take(70_000).map(|u| (u.key().to_int(), u.as_slice().to_vec())).collect();
+            if raw != reference {
+                return Err("SvcParams.iter_raw|differs-from-independent-split".into());
+            }
+        }
+        _ => {}
+    }
+    Ok(())
+}
+
+fn check_variants(env: &Env, v: &Value, c: &Vec<u8>, canon: &Vec<u8>, lc: &mut Local) {
+    let t = type_label(v.mnemonic);
+    let case = || env.value_case(v);
+    // enum-level conversions
+    lc.ev();
+    let r = guard(|| -> Result<(), String> {
+        use domain::base::name::FlattenInto;
+        use octseq::OctetsFrom;
+        let b = BRd::try_octets_from(v.data.clone()).map_err(|_| "AllRecordData-octets_from(Bytes)|failed")?;
+        let mut t1 = Vec::new();
+        b.compose_rdata(&mut t1).map_err(|_| "append")?;
+        let mut t2 = Vec::new();
+        b.compose_canonical_rdata(&mut t2).map_err(|_| "append")?;
+        if &t1 != c || &t2 != canon || !(b == v.data && v.data == b) || b.rtype().to_int() != v.rtype {
+            return Err("AllRecordData-octets_from(Bytes)|value-changed".into());
+        }
+        let back = Rd::try_octets_from(b).map_err(|_| "AllRecordData-octets_from(Vec)|failed")?;
+        if !(back == v.data) {
+            return Err("AllRecordData-octets_from(Vec)|value-changed".into());
+        }
+        let mut parser = Parser::from_ref(c.as_slice());
+        let parsed = PRd::parse_any_rdata(Rtype::from_int(v.rtype), &mut parser).map_err(|e| e.to_string())?;
+        let flat: Rd = parsed.try_flatten_into().map_err(|_: std::convert::Infallible| String::new())?;
+        let mut t3 = Vec::new();
+        flat.compose_rdata(&mut t3).map_err(|_| "append")?;
+        if &t3 != c || !(flat == v.data) {
+            return Err("AllRecordData-flatten_into|value-changed".into());
+        }
+        let z: Result<rgen::ZRd, Rd> = v.data.clone().into();
+        if let Ok(z) = z {
+            let bz = BZRd::try_octets_from(z.clone()).map_err(|_| "ZoneRecordData-octets_from(Bytes)|failed")?;
+            let mut t4 = Vec::new();
+            bz.compose_rdata(&mut t4).map_err(|_| "append")?;
+            if &t4 != c || !(bz == z) {
+                return Err("ZoneRecordData-octets_from(Bytes)|value-changed".into());
+            }
+            use domain::base::rdata::ParseRecordData;
+            let mut parser = Parser::from_ref(c.as_slice());
+            let pz = domain::rdata::ZoneRecordData::<&[u8], ParsedName<&[u8]>>::parse_rdata(Rtype::from_int(v.rtype), &mut parser).map_err(|e| e.to_string())?.ok_or("None")?;
+            let fz: rgen::ZRd = pz.try_flatten_into().map_err(|_: std::convert::Infallible| String::new())?;
+            let mut t5 = Vec::new();
+            fz.compose_rdata(&mut t5).map_err(|_| "append")?;
+            if &t5 != c || !(fz == z) {
+                return Err("ZoneRecordData-flatten_into|value-changed".into());
+            }
+        }
+        Ok(())
+    });
+    match r {
+        Ok(Ok(())) => lc.inc(format!("{}:conversions-ok", v.mnemonic)),
+        Ok(Err(e)) => env.viol(format!("C05|{t}|representation|{}", e.split(':').next().unwrap_or("")), format!("{}: {e}", v.desc), case()),
+        Err(e) => env.viol(format!("C05|{t}|representation|panic|{}", panic_class(&e)), format!("{}: {e}", v.desc), case()),
+    }
+    // per-type entry points
+    lc.ev();
+    match guard(|| typed_checks(v, c, canon)) {
+        Ok(Ok(())) => lc.inc(format!("{}:typed-ok", v.mnemonic)),
+        Ok(Err(e)) => env.viol(format!("C05|{t}|typed|{}", e.split(':').next().unwrap_or("")), format!("{}: {e}", v.desc), case()),
+        Err(e) => env.viol(format!("C05|{t}|typed|panic|{}", panic_class(&e)), format!("{}: {e}", v.desc), case()),
+    }
+    lc.ev();
+    match guard(|| typed_extras(v, c, canon)) {
+        Ok(Ok(())) => {}
+        Ok(Err(e)) => env.viol(format!("C05|{t}|typed-extra|{}", e.split(": ").next().unwrap_or("")), format!("{}: {e}", v.desc), case()),
+        Err(e) => env.viol(format!("C05|{t}|typed-extra|panic|{}", panic_class(&e)), format!("{}: {e}", v.desc), case()),
     }
 }
 
@@ -1623,6 +2071,257 @@ fn run_grammar(env: &Env, rtype: u16, fields: &[F], lc: &mut Local) -> u64 {
 }
 
 
+
+//------------ constructor variants and the over-long parse path ---------------------------
+
+/// The second (slice / Bytes / builder) constructors of the length-limited
+/// building blocks must accept exactly what `from_octets` accepts (the
+/// documented limit, checked here independently) and hold the same octets.
+fn check_ctor_variants(env: &Env, lc: &mut Local) -> u64 {
+    use domain::base::charstr::{CharStr, CharStrBuilder};
+    use domain::rdata::caa::{CaaFlags, CaaTag};
+    use domain::rdata::nsec3::{Nsec3Salt, OwnerHash};
+    use domain::rdata::rfc1035::{Null, Txt};
+    use domain::rdata::svcb::SvcParams;
+    use octseq::builder::OctetsBuilder;
+    let mut n = 0;
+    let report = |what: &str, detail: String| {
+        env.viol(format!("C05|ctor-variants|{what}"), detail.clone(), json!({"kind": "ctor-variants", "what": what, "detail": detail}));
+    };
+    for len in [0usize, 1, 2, 254, 255, 256, 300] {
+        n += 1;
+        lc.ev();
+        lc.inc("CTOR-VARIANTS:cases");
+        let data = rgen::fill_alpha(len);
+        let fits = len <= 255;
+        let r = guard(|| -> Result<(), String> {
+            // CharStr
+            let a = CharStr::from_octets(data.clone());
+            let b = CharStr::from_slice(&data);
+            if a.is_ok() != fits || b.is_ok() != fits {
+                return Err(format!("CharStr|from_octets/from_slice acceptance at {len} octets: {} / {}", a.is_ok(), b.is_ok()));
+            }
+            // the builder, fed in two pieces
+            let mut bld = CharStrBuilder::new_vec();
+            let (h1, h2) = data.split_at(len / 2);
+            let r1 = bld.append_slice(h1);
+            let before = bld.len();
+            let r2 = bld.append_slice(h2);
+            if (r1.is_ok() && r2.is_ok()) != fits {
+                return Err(format!("CharStrBuilder|append acceptance at {len} octets"));
+            }
+            if r2.is_err() && bld.len() != before {
+                return Err("CharStrBuilder|failed append changed the content".into());
+            }
+            let fb = CharStrBuilder::from_builder(data.clone());
+            if fb.is_ok() != fits {
+                return Err(format!("CharStrBuilder|from_builder acceptance at {len} octets"));
+            }
+            if len == 0 && CharStr::<Vec<u8>>::empty().as_slice() != b"" {
+                return Err("CharStr|empty() not empty".into());
+            }
+            if let (Ok(a), Ok(b)) = (a, b) {
+                let built = bld.finish();
+                let mut reference = vec![len as u8];
+                reference.extend_from_slice(&data);
+                for (what, got, cl) in [
+                    ("from_octets", { let mut t = Vec::new(); a.compose(&mut t).map_err(|_| "append")?; t }, a.compose_len()),
+                    ("from_slice", { let mut t = Vec::new(); b.compose(&mut t).map_err(|_| "append")?; t }, b.compose_len()),
+                    ("builder", { let mut t = Vec::new(); built.compose(&mut t).map_err(|_| "append")?; t }, built.compose_len()),
+                ] {
+                    if got != reference || cl as usize != reference.len() {
+                        return Err(format!("CharStr|{what}: compose differs from <len><octets> at {len} octets"));
+                    }
+                }
+                let mut p = Parser::from_ref(reference.as_slice());
+                let p1 = CharStr::parse(&mut p).map_err(|e| format!("CharStr|parse rejects own compose: {e}"))?;
+                let mut p = Parser::from_ref(reference.as_slice());
+                let p2 = CharStr::parse_slice(&mut p).map_err(|e| format!("CharStr|parse_slice rejects own compose: {e}"))?;
+                if p1.as_slice() != data || p2.as_slice() != data || p.remaining() != 0 || !(p1 == a) {
+                    return Err("CharStr|parse/parse_slice value differs".into());
+                }
+                if a.len() != len || a.is_empty() != (len == 0) || a.iter().collect::<Vec<u8>>() != data || a.for_slice().as_slice() != data {
+                    return Err("CharStr|len/is_empty/iter/for_slice differ".into());
+                }
+                let again = a.clone().into_builder().finish();
+                if again.as_slice() != data || a.clone().into_octets() != data {
+                    return Err("CharStr|into_builder/into_octets differ".into());
+                }
+            }
+            // CAA tag, NSEC3 salt and owner hash: 255-octet limit
+            let t1 = CaaTag::from_octets(data.clone()).is_ok();
+            let t2 = CaaTag::from_slice(&data).is_ok();
+            if t1 != fits || t2 != fits {
+                return Err(format!("CaaTag|from_octets/from_slice acceptance at {len} octets: {t1} / {t2}"));
+            }
+            let s1 = Nsec3Salt::from_octets(data.clone());
+            let s2 = Nsec3Salt::from_slice(&data);
+            let s3 = Nsec3Salt::from_bytes(bytes::Bytes::from(data.clone()));
+            if s1.is_ok() != fits || s2.is_ok() != fits || s3.is_ok() != fits {
+                return Err(format!("Nsec3Salt|from_octets/from_slice/from_bytes acceptance at {len} octets"));
+            }
+            if let (Ok(s1), Ok(s2), Ok(s3)) = (s1, s2, s3) {
+                if s1.as_slice() != data || s2.as_slice() != data || s3.as_slice() != data || s1.into_octets() != data {
+                    return Err("Nsec3Salt|octets differ".into());
+                }
+            }
+            if len == 0 && Nsec3Salt::<Vec<u8>>::empty().as_slice() != b"" {
+                return Err("Nsec3Salt|empty() not empty".into());
+            }
+            let h1 = OwnerHash::from_octets(data.clone());
+            let h2 = OwnerHash::from_slice(&data);
+            let h3 = OwnerHash::from_bytes(bytes::Bytes::from(data.clone()));
+            if h1.is_ok() != fits || h2.is_ok() != fits || h3.is_ok() != fits {
+                return Err(format!("OwnerHash|from_octets/from_slice/from_bytes acceptance at {len} octets"));
+            }
+            if let (Ok(h1), Ok(h2), Ok(h3)) = (h1, h2, h3) {
+                if h1.as_slice() != data || h2.as_slice() != data || h3.as_slice() != data || h1.into_octets() != data {
+                    return Err("OwnerHash|octets differ".into());
+                }
+            }
+            Ok(())
+        });
+        match r {
+            Ok(Ok(())) => lc.inc("CTOR-VARIANTS:agree"),
+            Ok(Err(e)) => report(e.split(':').next().unwrap_or(""), e.clone()),
+            Err(e) => report(&format!("panic|{}", panic_class(&e)), e.clone()),
+        }
+    }
+    // whole-RDATA wrappers: from_slice must decide like from_octets, whose
+    // decision is checked against an independent validity predicate
+    let txt_valid = |b: &[u8]| -> bool {
+        if b.is_empty() || b.len() > 65535 {
+            return false;
+        }
+        let mut p = 0;
+        while p < b.len() {
+            p += 1 + b[p] as usize;
+        }
+        p == b.len()
+    };
+    let opt_valid = |b: &[u8]| b.len() <= 65535 && split_options(b).is_some();
+    let svc_valid = |b: &[u8]| -> bool {
+        let mut p = 0;
+        let mut last: Option<u16> = None;
+        while p < b.len() {
+            if p + 4 > b.len() {
+                return false;
+            }
+            let k = u16::from_be_bytes([b[p], b[p + 1]]);
+            let l = u16::from_be_bytes([b[p + 2], b[p + 3]]) as usize;
+            if last.map(|x| k <= x).unwrap_or(false) || p + 4 + l > b.len() {
+                return false;
+            }
+            last = Some(k);
+            p += 4 + l;
+        }
+        true
+    };
+    let inputs: Vec<Vec<u8>> = vec![
+        vec![],
+        vec![0],
+        vec![1, b'a'],
+        vec![2, b'a'],
+        vec![1, b'a', 0],
+        vec![0, 3, 0, 0],
+        vec![0, 3, 0, 1, 9],
+        vec![0, 3, 0, 2, 9],
+        vec![0, 3, 0],
+        vec![0, 1, 0, 0, 0, 3, 0, 2, 1, 187],
+        vec![0, 3, 0, 2, 1, 187, 0, 1, 0, 0],
+        vec![0, 1, 0, 0, 0, 1, 0, 0],
+        vec![0; 65535],
+        vec![0; 65536],
+    ];
+    for b in &inputs {
+        n += 1;
+        lc.ev();
+        lc.inc("CTOR-VARIANTS:cases");
+        let r = guard(|| -> Result<(), String> {
+            let (a1, a2) = (Txt::from_octets(b.clone()).is_ok(), Txt::from_slice(b).is_ok());
+            if a1 != txt_valid(b) || a2 != a1 {
+                return Err(format!("Txt|from_octets/from_slice acceptance {a1}/{a2}, reference {}: {} octets {}", txt_valid(b), b.len(), hex(&b[..b.len().min(12)])));
+            }
+            if a1 {
+                let x = Txt::from_slice(b).map_err(|e| e.to_string())?;
+                if x.len() != b.len() || x.iter_charstrs().count() != Txt::from_octets(b.clone()).map_err(|e| e.to_string())?.iter_charstrs().count() {
+                    return Err("Txt|from_slice value differs from from_octets".into());
+                }
+            }
+            let (n1, n2) = (Null::from_octets(b.clone()).is_ok(), Null::from_slice(b).is_ok());
+            if n1 != (b.len() <= 65535) || n2 != n1 {
+                return Err(format!("Null|from_octets/from_slice acceptance {n1}/{n2} at {} octets", b.len()));
+            }
+            if n1 && Null::from_slice(b).map_err(|e| e.to_string())?.data() != &b[..] {
+                return Err("Null|from_slice data differs".into());
+            }
+            let (o1, o2) = (Opt::from_octets(b.clone()).is_ok(), Opt::from_slice(b).is_ok());
+            if o1 != opt_valid(b) || o2 != o1 {
+                return Err(format!("Opt|from_octets/from_slice acceptance {o1}/{o2}, reference {}: {} octets {}", opt_valid(b), b.len(), hex(&b[..b.len().min(12)])));
+            }
+            let (s1, s2) = (SvcParams::from_octets(b.clone()).is_ok(), SvcParams::from_slice(b).is_ok());
+            if s1 != svc_valid(b) || s2 != s1 {
+                return Err(format!("SvcParams|from_octets/from_slice acceptance {s1}/{s2}, reference {}: {} octets {}", svc_valid(b), b.len(), hex(&b[..b.len().min(12)])));
+            }
+            if s1 && SvcParams::from_slice(b).map_err(|_| "SvcParams|from_slice".to_string())?.as_slice() != &b[..] {
+                return Err("SvcParams|from_slice octets differ".into());
+            }
+            Ok(())
+        });
+        match r {
+            Ok(Ok(())) => lc.inc("CTOR-VARIANTS:agree"),
+            Ok(Err(e)) => report(e.split(':').next().unwrap_or(""), e.clone()),
+            Err(e) => report(&format!("panic|{}", panic_class(&e)), e.clone()),
+        }
+    }
+    // small fixed constructors
+    n += 1;
+    lc.ev();
+    let r = guard(|| -> Result<(), String> {
+        if CaaFlags::critical().bits() != 0x80 || CaaFlags::default().bits() != 0 {
+            return Err("CaaFlags|critical()/default() bits".into());
+        }
+        let d = domain::rdata::Nsec3param::<Vec<u8>>::default();
+        let mut t = Vec::new();
+        d.compose_rdata(&mut t).map_err(|_| "append")?;
+        // RFC 9276 §3.1: SHA-1 (1), flags 0, 0 iterations, empty salt
+        if t != [1, 0, 0, 0, 0] {
+            return Err(format!("Nsec3param|default() composes to {}", hex(&t)));
+        }
+        let mut b = domain::rdata::dnssec::RtypeBitmap::<Vec<u8>>::builder();
+        b.add(Rtype::from_int(1)).map_err(|_| "append")?;
+        let mut b2 = domain::rdata::dnssec::RtypeBitmapBuilder::with_builder(Vec::<u8>::new());
+        b2.add(Rtype::from_int(1)).map_err(|_| "append")?;
+        let mut b3 = domain::rdata::dnssec::RtypeBitmapBuilder::<Vec<u8>>::default();
+        b3.add(Rtype::from_int(1)).map_err(|_| "append")?;
+        for bm in [b.finalize(), b2.finalize(), b3.finalize()] {
+            if bm.as_slice() != [0, 1, 0x40] || bm.as_octets() != &vec![0, 1, 0x40] {
+                return Err("RtypeBitmap|builder()/with_builder()/default() differ".into());
+            }
+        }
+        Ok(())
+    });
+    match r {
+        Ok(Ok(())) => lc.inc("CTOR-VARIANTS:agree"),
+        Ok(Err(e)) => report(e.split(':').next().unwrap_or(""), e.clone()),
+        Err(e) => report(&format!("panic|{}", panic_class(&e)), e.clone()),
+    }
+    // over-long input to the stand-alone parsers that check for it: must be
+    // an error (LongRecordData -> ParseError), never a value
+    for rtype in [10u16, 16, 43, 48, 59, 60, 46, 250, 64, 65, 41] {
+        n += 1;
+        lc.ev();
+        lc.inc("CTOR-VARIANTS:cases");
+        let big = vec![0u8; 65536];
+        match parse_alone(rtype, &big) {
+            Ok(Err(_)) => lc.inc("CTOR-VARIANTS:agree"),
+            Ok(Ok(_)) => report(&format!("{}|parse|accepts-65536-octets-of-rdata", rtype_label(rtype)), format!("type {rtype}: 65536 zero octets parsed into a value")),
+            Err(e) => report(&format!("{}|parse|panic|{}", rtype_label(rtype), panic_class(&e)), e),
+        }
+    }
+    n
+}
+
 //------------ hand-built name layouts ------------------------------------------------
 
 /// Shapes an embedded (or owner) name can take inside a message. The
@@ -1928,6 +2627,10 @@ fn replay(env: &Env, path: &str) {
                 });
             }
         }
+        Some("ctor-variants") => {
+            // few cases: re-run all of them
+            check_ctor_variants(env, &mut lc);
+        }
         Some("layout") => {
             let rtype = case["rtype"].as_u64().unwrap_or(0) as u16;
             let shapes: Vec<usize> = case["shapes"].as_array().map(|a| a.iter().map(|x| x.as_u64().unwrap_or(0) as usize).collect()).unwrap_or_default();
@@ -2054,10 +2757,12 @@ fn main() {
 
     // 4. hand-built name layouts
     let layout_cases;
+    let ctor_variant_cases;
     {
         let mut lc = Local::default();
         wd.enter(|| json!({"type": "LAYOUTS"}));
         layout_cases = run_layouts(&env, &mut lc);
+        ctor_variant_cases = check_ctor_variants(&env, &mut lc);
         wd.leave();
         let mut m = merged.lock().unwrap();
         for (k, v) in lc.c {
@@ -2080,7 +2785,7 @@ fn main() {
         per_type.entry(t.to_string()).or_default().insert("candidates".into(), n);
     }
     let sum = |suffix: &str| -> u64 {
-        m.c.iter().filter(|(k, _)| k.ends_with(suffix) && !k.starts_with("BYTES-") && !k.starts_with("OPTION-") && !k.starts_with("OPTBYTES-") && !k.starts_with("LAYOUT-")).map(|(_, v)| *v).sum()
+        m.c.iter().filter(|(k, _)| k.ends_with(suffix) && !k.starts_with("BYTES-") && !k.starts_with("OPTION-") && !k.starts_with("OPTBYTES-") && !k.starts_with("LAYOUT-") && !k.starts_with("CTOR-VARIANTS")).map(|(_, v)| *v).sum()
     };
     let sum_in = |prefix: &str, suffix: &str| -> u64 { m.c.iter().filter(|(k, _)| k.ends_with(suffix) && k.starts_with(prefix)).map(|(_, v)| *v).sum() };
     println!("{:<12} {:>9} {:>9} {:>9} {:>12} {:>9}", "type", "cand", "generated", "refused", "roundtripped", "msg-rt");
@@ -2099,6 +2804,10 @@ fn main() {
             "values_refused_by_constructor": sum(":refused"),
             "values_roundtripped": sum(":roundtripped"),
             "message_roundtrips": sum(":message-roundtrips"),
+            "constructor_variant_cases": ctor_variant_cases,
+            "constructor_variant_agree": m.c.get("CTOR-VARIANTS:agree").cloned().unwrap_or(0),
+            "values_conversions_ok": sum(":conversions-ok"),
+            "values_typed_entry_points_ok": sum(":typed-ok"),
             "name_layout_messages": layout_cases,
             "name_layout_accepted": sum_in("LAYOUT-", ":accepted"),
             "name_layout_rejected": sum_in("LAYOUT-", ":rejected"),
